@@ -38,6 +38,9 @@ type Case struct {
 	ServerArgs []string
 	Batches    [][]Q
 	DriverQs   []Q // run through database/sql with grpc:// and file: DSNs
+	// Flood: this many failing batches are sent first (a server must not wear
+	// out: leaked slots, counters, goroutines); then the batches follow.
+	Flood int
 }
 
 func (c *Case) Summary() string {
@@ -58,7 +61,7 @@ func (c *Case) Summary() string {
 		}
 		b.WriteString(" ]")
 	}
-	fmt.Fprintf(&b, " driver-queries[%d]", len(c.DriverQs))
+	fmt.Fprintf(&b, " driver-queries[%d] error-flood=%d", len(c.DriverQs), c.Flood)
 	return b.String()
 }
 
@@ -89,6 +92,19 @@ func oracle(c *Case) (facts, error) {
 		return f, fmt.Errorf("INFRA: %v", err)
 	}
 	defer fix.Safe(lib.Close)
+	for i := 0; i < c.Flood; i++ {
+		bad := &pb.QueryRequest{Queries: []*pb.Query{fix.PBQuery(model.Eq("no_such_column", "x"), nil, 0)}}
+		if i%3 == 1 && len(d.Columns()) > 0 {
+			bad.Queries = append([]*pb.Query{fix.PBQuery(model.Not(model.Eq(d.Columns()[0], "q")), nil, 0)}, bad.Queries...)
+		}
+		if _, err := srv.Query(bad, 20*time.Second); err == nil {
+			return f, fmt.Errorf("flood batch %d with an unknown column was answered without error", i)
+		} else if !srv.Alive() {
+			return f, fmt.Errorf("server died during the error flood (batch %d): %s", i, clip(srv.Output()))
+		} else if strings.Contains(err.Error(), "DeadlineExceeded") {
+			return f, fmt.Errorf("after %d failing batches the server no longer answers (next failing batch timed out): %v", i, err)
+		}
+	}
 	for bi, batch := range c.Batches {
 		req := &pb.QueryRequest{}
 		anyInvalid := false
@@ -105,6 +121,9 @@ func oracle(c *Case) (facts, error) {
 			f.multi = true
 		}
 		resp, rerr := srv.Query(req, 60*time.Second)
+		if rerr != nil && c.Flood > 0 && strings.Contains(rerr.Error(), "DeadlineExceeded") {
+			return f, fmt.Errorf("batch %d after a flood of %d failing batches: the server no longer answers: %v", bi, c.Flood, rerr)
+		}
 		if !srv.Alive() {
 			return f, fmt.Errorf("batch %d: server died (%s): %s", bi, srv.ExitInfo(), clip(srv.Output()))
 		}
@@ -316,6 +335,9 @@ func drawCase(t *rapid.T, maxBatches int) *Case {
 		}
 		c.Batches = append(c.Batches, batch)
 	}
+	if rapid.IntRange(0, 9).Draw(t, "flood?") == 0 {
+		c.Flood = rapid.SampledFrom([]int{70, 130, 140, 300, 520}).Draw(t, "flood")
+	}
 	nd := rapid.IntRange(0, 4).Draw(t, "ndriver")
 	for i := 0; i < nd; i++ {
 		c.DriverQs = append(c.DriverQs, drawQ(t, pool, c.Data.Recipe != nil, rapid.IntRange(0, 5).Draw(t, "dinv") == 0))
@@ -383,6 +405,14 @@ func drawConv(t *rapid.T) *ConvCase {
 			g.Cols = append(g.Cols, gen.ColName(false).Draw(t, "fc"))
 			g.Vals = append(g.Vals, gen.Value().Draw(t, "fv"))
 		}
+		if rapid.IntRange(0, 2).Draw(t, "fieldcollide") == 0 {
+			// two fields whose column+value concatenations are equal
+			w := rapid.SampledFrom([]string{"k1x", "ab", "count1", "x\x00y", "a=b", "  "}).Draw(t, "cw")
+			p1 := rapid.IntRange(0, len(w)).Draw(t, "cp1")
+			p2 := rapid.IntRange(0, len(w)).Draw(t, "cp2")
+			g.Cols = append(g.Cols, w[:p1], w[:p2])
+			g.Vals = append(g.Vals, w[p1:], w[p2:])
+		}
 		c.Result.Groups = append(c.Result.Groups, g)
 	}
 	return c
@@ -411,8 +441,24 @@ func runConv(t interface{ Fatalf(string, ...any) }, c *ConvCase) {
 	}
 }
 
+// bigResponses: results far larger than a typical response (tens to hundreds
+// of KiB: one group per row of a unique column), through the raw RPC and
+// through database/sql with both DSN kinds.
+func bigResponses(t *testing.T) {
+	for _, n := range []int{2500, 6000, 20000} {
+		spec := gen.DataSpec{Recipe: &gen.Recipe{N: n, Cols: []gen.ColSpec{
+			{Name: "u", Prefix: "row-", Kind: gen.KUnique}, {Name: "a", Kind: gen.KMod, K: 3, Prefix: "v"}}}}
+		taut := model.Not(model.Eq("a", "none"))
+		c := &Case{Data: spec, Writer: n % fix.NWriters,
+			Batches:  [][]Q{{{Expr: taut, GroupBy: []string{"u"}}, {ID: 5, Expr: model.Eq("a", "v1"), GroupBy: []string{"u"}}}},
+			DriverQs: []Q{{Expr: taut, GroupBy: []string{"u"}}, {Expr: model.Eq("a", "v2"), GroupBy: []string{"u"}}}}
+		run(t, c)
+	}
+}
+
 func TestQuick(t *testing.T) {
 	fix.Pinned(t, prop, replay)
+	bigResponses(t)
 	fix.Check(t, "convert", 3000, func(rt *rapid.T) { runConv(rt, drawConv(rt)) })
 	fix.Check(t, "batch", 150, func(rt *rapid.T) { run(rt, drawCase(rt, 25)) })
 }
@@ -420,6 +466,7 @@ func TestQuick(t *testing.T) {
 func TestThorough(t *testing.T) {
 	if shard, _ := evid.Shard(); shard == 0 {
 		fix.Pinned(t, prop, replay)
+		bigResponses(t)
 	}
 	fix.Check(t, "convert", 20000, func(rt *rapid.T) { runConv(rt, drawConv(rt)) })
 	fix.Check(t, "batch", 400, func(rt *rapid.T) { run(rt, drawCase(rt, 60)) })
